@@ -266,6 +266,9 @@ func newTwinCache(sc *Scenario, bo BuildOpt) *twinCache {
 
 func reqKey(rq *Req) string {
 	k := rq.Kind + " " + rq.Method + " " + rq.Path
+	if rq.Gone {
+		k += "|gone"
+	}
 	for _, f := range rq.WFaults {
 		k += fmt.Sprintf("|%d:%d:%s", f.At, f.N, f.Err)
 	}
